@@ -24,6 +24,13 @@ ASSUMPTIONS = [
 JCOLS = ['atom index', 'start site', 'destination site', 'start time', 'stop time']
 
 
+class JumpsStub:
+    """stands in for a Jumps object: Collective only reads `.data` (a plain class so that it can be weakly referenced like Jumps)"""
+
+    def __init__(self, data):
+        self.data = data
+
+
 def make_table(rows):
     return pd.DataFrame(data=np.array(rows, dtype=int).reshape(-1, 5), columns=JCOLS)
 
@@ -80,7 +87,7 @@ def run_table(case):
     M = np.array(case['lattice']['matrix'])
     rows = [tuple(r) for r in case['rows']]
     sites = cases.sites_structure(M, case['sites']['frac'], case['sites']['labels'])
-    stub = types.SimpleNamespace(data=make_table(rows))
+    stub = JumpsStub(make_table(rows))
     coll = gcall(Collective, jumps=stub, sites=sites, lattice=cases.lattice(case['lattice']), max_steps=case['window'], max_dist=case['cutoff'])
     must, behind = check_collective(coll, rows, case['sites']['frac'], M, case['window'], case['cutoff'])
     spm = np.asarray(gcall(coll.site_pair_count_matrix))
